@@ -21,12 +21,13 @@ Inductive cmd :=
 | CCacheNew (c k : N)                       (* Cache::new(&c) -> cache handle k *)
 | CCacheLoad (k : N)                        (* Cache::load *)
 | CSetGen (g : N)                           (* verif::set_generation(g) (C13) *)
-| CMove (h h2 : N).                         (* the program moves a handle (no library call) *)
+| CMove (h h2 : N)                          (* the program moves a handle (no library call) *)
+| CJoin (t : N).                            (* JoinHandle::join: waits until thread t is gone *)
 
 Inductive handle :=
 | HEmpty
 | HOwned (a : N)
-| HGuard (a : N) (d : option loc)
+| HGuard (a : N) (d : option slot)
 | HCache (c a : N).
 
 (** ** Program points.  Every constructor names the NEXT atomic action of the frame
@@ -49,8 +50,8 @@ Inductive pc :=
 (* generic: decrement, then return *)
 | PDec (a : N) (r : retval)
 (* Guard drop, Guard::into_inner *)
-| GD1 (p : N) (sl : loc)
-| GI1 (p : N) (sl : loc) | GI2 (p : N) (sl : loc)
+| GD1 (p : N) (sl : slot)
+| GI1 (p : N) (sl : slot) | GI2 (p : N) (sl : slot)
 (* Debt::pay_all *)
 | P1 (c old : N) | P2 (c old : N) | P3 (c old w : N)
 | PE0d (c old w : N) | PE0e (c old w : N) | PE1 (c old w : N) | PE2 (c old w ctl : N)
@@ -60,9 +61,9 @@ Inductive pc :=
 | PS (c old w j : N) | PSi (c old w j : N) | P5 (c old w : N) | P6 (c old : N)
 (* swap / compare_and_swap / rcu / cache / allocation *)
 | S1 (c new : N)
-| K1 (c cur new p : N) (d : option loc)
-| RAlloc (c : N) (m : rcu_mode) (p : N) (d : option loc)
-| RInc (c : N) (m : rcu_mode) (p : N) (d : option loc)
+| K1 (c cur new p : N) (d : option slot)
+| RAlloc (c : N) (m : rcu_mode) (p : N) (d : option slot)
+| RInc (c : N) (m : rcu_mode) (p : N) (d : option slot)
 | Q1 (c a k : N)
 | NewAlloc
 | CloneInc (a : N)
@@ -76,13 +77,13 @@ Inductive pc :=
 | WSwap (old : N)                   (* swap waits for pay_all *)
 | WDropOld                          (* store: drop what swap returned *)
 | WCasLoad (c cur new : N)
-| WCasPaid (p : N) (d : option loc)
+| WCasPaid (p : N) (d : option slot)
 | WCasRetry (c cur new : N)
 | WRcuLoad (c : N) (m : rcu_mode)
-| WRcuCas (c : N) (m : rcu_mode) (p : N) (d : option loc)
-| WRcuInto (p : N) (d : option loc)
+| WRcuCas (c : N) (m : rcu_mode) (p : N) (d : option slot)
+| WRcuInto (p : N) (d : option slot)
 | WRcuRet (q : N)
-| WRcuNext (c : N) (m : rcu_mode) (q : N) (dq : option loc)
+| WRcuNext (c : N) (m : rcu_mode) (q : N) (dq : option slot)
 | WInto (p : N)                     (* container into_inner waits for pay_all *)
 | WDropStore (p : N)
 | WCacheReload (c a k : N)
